@@ -219,7 +219,7 @@ theorem readPageM_q {e : Env} (hq : Quiet e) (s : FS) (hp : s.pos ≤ s.data.len
       have hl27 : (d.take 27).length = 27 := by simp only [List.length_take]; omega
       simp only [h27, h27', ↓reduceIte]
       by_cases hcap : (d.take 27).take 4 ≠ [0x4F, 0x67, 0x67, 0x53]
-      · simp only [if_pos hcap, raise_run]; exact ⟨_, rfl, rfl⟩
+      · simp only [if_pos hcap, bind_run, ftell_q hq, raise_run]; exact ⟨_, rfl, rfl⟩
       · simp only [if_neg hcap]
         by_cases hver : ((d.take 27).drop 4).head!.toNat ≠ 0
         · simp only [if_pos hver, raise_run]; exact ⟨_, rfl, rfl⟩
@@ -562,7 +562,8 @@ theorem raises_readPageM : Raises OggErr readPageM := by
   split
   · exact Raises.raise _ (fun _ => Or.inr (Or.inl rfl))
   split
-  · exact Raises.raise _ (fun _ => Or.inr (Or.inl rfl))
+  · apply Raises.bind (Raises.ftell.weaken fun _ _ h => oggErr_inj h); intro _
+    exact Raises.raise _ (fun _ => Or.inr (Or.inl rfl))
   simp only
   split
   · exact Raises.raise _ (fun _ => Or.inr (Or.inl rfl))
@@ -790,7 +791,7 @@ theorem okOn_readPageM (e : Env) : OkOn e readPageM := by
   split
   · exact OkOn.of (OkAgree.raise _) e
   split
-  · exact OkOn.of (OkAgree.raise _) e
+  · exact OkOn.bind (OkOn.of OkAgree.ftell e) (fun _ => OkOn.of (OkAgree.raise _) e)
   simp only
   split
   · exact OkOn.of (OkAgree.raise _) e
@@ -811,7 +812,7 @@ theorem errOn_readPageM (e : Env) : ErrOn e readPageM := by
   split
   · exact ErrOn.raise _
   split
-  · exact ErrOn.raise _
+  · exact ErrOn.bind (OkOn.of OkAgree.ftell e) (ErrOn.ofInjected Raises.ftell) (fun _ => ErrOn.raise _)
   simp only
   split
   · exact ErrOn.raise _
